@@ -32,6 +32,10 @@ type C19Case struct {
 	Schedule []int    `json:"schedule,omitempty"`
 	Mode     app.Mode `json:"mode"`
 	Reps     int      `json:"reps,omitempty"`
+	// Alt: per session, which application data and engine configuration it is served from:
+	// 0 the application as is; 1 the same application data under another output size;
+	// 2 a second application with the same node names and other template texts
+	Alt []int `json:"alt,omitempty"`
 }
 
 // genHubApp builds the shape in which sessions interfere if pending code aliases shared
@@ -107,6 +111,11 @@ func genC19(conc bool) func(t *rapid.T) C19Case {
 			c.Mode = []app.Mode{{Kind: "long"}, {Kind: "persist", Backend: "fs"}, {Kind: "persist", Backend: "mem"}, {Kind: "persist", Backend: "pg"}}[uniformN(t, 4, "mode")]
 			c.Schedule = rapid.SliceOfN(rapid.IntRange(0, n-1), total, total+4).Draw(t, "schedule")
 		}
+		if chancePct(t, 35, "alts") {
+			for i := 0; i < n; i++ {
+				c.Alt = append(c.Alt, uniformN(t, 3, "alt"))
+			}
+		}
 		return c
 	}
 }
@@ -114,6 +123,8 @@ func genC19(conc bool) func(t *rapid.T) C19Case {
 type c19Env struct {
 	shared   *app.Shared
 	before   map[string][]byte
+	second   *app.Shared
+	before2  map[string][]byte
 	sessions []*app.Session
 	cleanup  []func()
 }
@@ -147,7 +158,25 @@ func newC19Env(c C19Case, shared *app.Shared, only int) *c19Env {
 				e.cleanup = append(e.cleanup, cl)
 			}
 		}
-		s := app.NewSession(shared, c.Mode, st)
+		sh := shared
+		alt := 0
+		if i < len(c.Alt) {
+			alt = c.Alt[i]
+		}
+		if alt == 2 {
+			if e.second == nil {
+				e.second = app.NewShared(app.SecondApp(c.App))
+				e.before2 = map[string][]byte{}
+				for k, v := range e.second.Code {
+					e.before2[k] = append([]byte{}, v...)
+				}
+			}
+			sh = e.second
+		}
+		s := app.NewSession(sh, c.Mode, st)
+		if alt == 1 {
+			s.Cfg.OutputSize = app.OtherOutputSize(s.Cfg.OutputSize)
+		}
 		s.Cfg.SessionId = fmt.Sprintf("sess%d", i)
 		e.sessions = append(e.sessions, s)
 	}
@@ -164,6 +193,13 @@ func (e *c19Env) sharedUnchanged() *Violation {
 	for k, v := range e.shared.Code {
 		if !bytes.Equal(v, e.before[k]) {
 			return viol("shared-data-changed", "the shared bytecode of node %s changed: %x -> %x", k, e.before[k], v)
+		}
+	}
+	if e.second != nil {
+		for k, v := range e.second.Code {
+			if !bytes.Equal(v, e.before2[k]) {
+				return viol("shared-data-changed", "the shared bytecode of node %s (second application) changed: %x -> %x", k, e.before2[k], v)
+			}
 		}
 	}
 	return nil
@@ -205,7 +241,7 @@ func c19FreshProcess(c C19Case, solo [][]app.Step) (*Violation, bool) {
 	}
 	dir := workDir()
 	defer os.RemoveAll(dir)
-	job := map[string]any{"app": c.App, "hists": c.Hists, "mode": c.Mode, "dir": dir}
+	job := map[string]any{"app": c.App, "hists": c.Hists, "mode": c.Mode, "dir": dir, "alt": c.Alt}
 	jb, _ := json.Marshal(job)
 	jp := filepath.Join(dir, "job.json")
 	os.WriteFile(jp, jb, 0o600)
